@@ -133,6 +133,8 @@ class Run(object):
             child = T.SimPopenSpawn(['simchild'], **kw)
         else:
             raise HarnessError('unknown transport %r' % (tr,))
+        if scn.get('ignorecase'):
+            child.ignorecase = True
         for attr in ('delayafterread', 'delaybeforesend', 'delayafterclose', 'delayafterterminate'):
             if attr in scn:
                 setattr(child, attr, scn[attr])
@@ -270,6 +272,9 @@ class Run(object):
             if api == 'expect_loop':
                 from pexpect.expect import searcher_re
                 return child.expect_loop(searcher_re(pl), timeout=to, searchwindowsize=sws)
+            if op.get('raw'):
+                # uncompiled strings: pexpect compiles them itself (DOTALL, + IGNORECASE when ignorecase is set)
+                pl = [(EOF if p['t'] == 'EOF' else TIMEOUT if p['t'] == 'TIMEOUT' else self.conv(p['p'])) for p in op['pats']]
             if len(pl) == 1 and op.get('single'):
                 pl = pl[0]
             return child.expect(pl, timeout=to, searchwindowsize=sws)
